@@ -283,13 +283,26 @@ impl CreateSymbolTable {
         }
 
         let token = &clock_domain.identifier.identifier_token.token;
-        let id = if let Ok(symbol) = symbol_table::resolve((token, &self.get_namespace(token))) {
+        let namespace = self.get_namespace(token);
+        // A clock domain name only ever denotes a clock domain of the enclosing
+        // component. Resolving it through the whole symbol table would bind `'a`
+        // to an unrelated symbol named `a` (e.g. a package in another file) when
+        // that file happens to be analyzed first, making this file's pass1 output
+        // depend on the file order. A same-namespace hit is kept so that the
+        // insert below cannot conflict.
+        let resolved = symbol_table::resolve((token, &namespace))
+            .ok()
+            .filter(|x| {
+                matches!(x.found.kind, SymbolKind::ClockDomain)
+                    || x.found.namespace.paths == namespace.paths
+            });
+        let id = if let Some(symbol) = resolved {
             symbol.found.id
         } else {
             let symbol = Symbol::new(
                 token,
                 SymbolKind::ClockDomain,
-                &self.get_namespace(token),
+                &namespace,
                 false,
                 DocComment::default(),
             );
